@@ -71,6 +71,81 @@ pub fn events_compof(ci: usize, c: &Value) -> Vec<Value> {
         .collect()
 }
 
+
+// ------------------------------------------------------------------ COMPONENTS OF, second model (CompOf.tla)
+
+fn leaf_text(c: &Value, literal: bool) -> String {
+    let (d, i) = (c["d"].as_u64().unwrap(), c["i"].as_u64().unwrap());
+    let lim = if literal { "9" } else { "lim" };
+    if i == 0 {
+        format!("c{d}x0 BOOLEAN")
+    } else if i % 2 == 1 {
+        format!("c{d}x{i} INTEGER (0..{lim})")
+    } else {
+        format!("c{d}x{i} BOOLEAN OPTIONAL")
+    }
+}
+
+/// a component list of the model's Expand as notation
+fn list_text(list: &Value) -> Vec<String> {
+    list.as_array()
+        .unwrap()
+        .iter()
+        .map(|c| if c["k"] == "leaf" { leaf_text(c, true) } else { format!("n{} SEQUENCE {{ {} }}", c["d"], list_text(&c["sub"]).join(", ")) })
+        .collect()
+}
+
+/// the identifiers of a component list, inner lists in brackets: what the trace specification compares
+fn list_names(list: &Value) -> Vec<String> {
+    list.as_array().unwrap().iter().map(|c| if c["k"] == "leaf" { format!("c{}x{}", c["d"], c["i"]) } else { format!("n{}", c["d"]) }).collect()
+}
+
+pub fn events_compof2(ci: usize, c: &Value) -> Vec<Value> {
+    let n = 3usize;
+    let rank = |d: usize| c["rank"][d - 1].as_u64().unwrap();
+    let mut sugared = vec![];
+    let mut expanded = vec![];
+    for d in 1..=n {
+        let name = def_name(rank(d));
+        let mut parts: Vec<String> = (1..=c["nown"][d - 1].as_u64().unwrap()).map(|i| leaf_text(&json!({"d": d, "i": i}), false)).collect();
+        let t = c["inner"][d - 1].as_u64().unwrap() as usize;
+        if t != 0 {
+            parts.push(format!("n{d} SEQUENCE {{ c{d}x0 BOOLEAN, COMPONENTS OF {} }}", def_name(rank(t))));
+        }
+        for t in c["cofs"][d - 1].as_array().unwrap() {
+            parts.push(format!("COMPONENTS OF {}", def_name(rank(t.as_u64().unwrap() as usize))));
+        }
+        let mut full = list_text(&c["expected"][d - 1]);
+        if c["ext"][d - 1] == true {
+            parts.push("...".into());
+            full.push("...".into());
+        }
+        sugared.push(format!("{name} ::= SEQUENCE {{ {} }}", parts.join(", ")));
+        expanded.push(format!("{name} ::= SEQUENCE {{ {} }}", full.join(", ")));
+    }
+    sugared.push("lim INTEGER ::= 9".into());
+    expanded.push("lim INTEGER ::= 9".into());
+    let (stext, etext) = (module(&sugared.join("\n")), module(&expanded.join("\n")));
+    let (so, sk) = compile_one(&stext);
+    let (eo, ek) = compile_one(&etext);
+    (1..=n)
+        .map(|d| {
+            let name = def_name(rank(d));
+            let uses = c["inner"][d - 1] != 0 || !c["cofs"][d - 1].as_array().unwrap().is_empty();
+            // extension marks of the sugared item: which fields carry extension_addition, and whether the item is non_exhaustive
+            let marks: Vec<String> = sk.item(&name).map(|it| it.fields.iter().filter(|f| f.attrs.has("extension_addition")).map(|f| f.attrs.nv("identifier").unwrap_or(f.name.clone())).collect()).unwrap_or_default();
+            let ext_item = sk.item(&name).map(|it| it.attrs.non_exhaustive).unwrap_or(false);
+            json!({"ev": "compof2", "case": ci, "def": name, "d": d, "asn": stext, "expanded_asn": etext,
+                   "sugared_status": status_of(&so), "expanded_status": status_of(&eo),
+                   "expected": list_names(&c["expected"][d - 1]), "ext": c["ext"][d - 1],
+                   "uses_compof": uses, "clauses": c["cofs"][d - 1].as_array().unwrap().len(),
+                   "same_items": items_of(&sk, &name) == items_of(&ek, &name),
+                   "additions": marks, "extensible_item": ext_item,
+                   "sugared": field_names(&sk, &name), "expanded": field_names(&ek, &name)})
+        })
+        .collect()
+}
+
 // ------------------------------------------------------------------ the other notations
 
 /// (sugared body, expanded body, names of the definitions to compare)
@@ -251,7 +326,7 @@ pub fn drive(args: &[String]) -> i32 {
     let indexed: Vec<(usize, Value)> = cases.into_iter().enumerate().collect();
     let events = util::par_chunks(&indexed, 16, util::threads(), |_, chunk| {
         run::install_panic_hook();
-        chunk.iter().flat_map(|(i, c)| if c.get("fam").is_some() { events_sugar(*i, c) } else { events_compof(*i, c) }).collect()
+        chunk.iter().flat_map(|(i, c)| if c.get("fam").is_some() { events_sugar(*i, c) } else if c.get("nown").is_some() { events_compof2(*i, c) } else { events_compof(*i, c) }).collect()
     });
     util::write_ndjson(util::arg(args, "--trace").expect("--trace"), &events);
     eprintln!("c09: {} cases, {} events", indexed.len(), events.len());
